@@ -279,4 +279,23 @@ def committedMetas (dropEmpty : Bool) (reg : List SegEntry) : List SegEntry × L
 def managedOpenWriteOps (order : List Nat) (mg : Payload) (p : Path) : List Op :=
   order.filterMap (fun c => if c = 1 then some (Op.atomicWrite MANAGED mg) else if c = 2 then some (Op.create p) else none)
 
+/-! ## file names of a segment meta -/
+
+/-- a `SegmentMeta` as far as file names go: segment id, delete opstamp, temp-store flag -/
+structure SegMetaM where
+  seg : Nat
+  delOp : Nat
+  includeTemp : Bool
+deriving Repr, DecidableEq
+
+/-- abstract file name: (segment, component index, delete opstamp for the delete component)
+-- mirrors: src/index/index_meta.rs::relative_path -/
+def relPathM (m : SegMetaM) (c : Nat) : Nat × Nat × Nat :=
+  (m.seg, c, if c + 1 = Gen.NUM_COMPONENTS then m.delOp else 0)
+
+/-- `SegmentMeta::list_files`: every component, minus the temp store once untracked
+-- mirrors: src/index/index_meta.rs::list_files (Gen.LIST_FILES_DROPS_ONLY_TEMPSTORE) -/
+def listFilesM (m : SegMetaM) : List (Nat × Nat × Nat) :=
+  ((List.range Gen.NUM_COMPONENTS).filter (fun c => m.includeTemp || c != Gen.TEMPSTORE_INDEX)).map (relPathM m)
+
 end TantivyModel.GC
